@@ -36,23 +36,25 @@ type Cell struct {
 
 // Obs is what the child observed for one cell.
 type Obs struct {
-	ID         string
-	ErrNil     bool
-	ErrHasMsg  bool
-	ErrText    string
-	RowsOK     bool // only meaningful if ErrNil
-	RowsDiff   string
-	Reached    int64
-	Fired      int64
-	Locs       map[string]int
-	HealthyOK  bool
-	HealthyErr string
-	Hang       string // "" | "run" | "repeat-run" | "later-run"
-	Repeats    int    // how often the failing Func was run again before the healthy one
-	RepeatBad  string // a repeat of the failing Func that broke the oracle of the first run
-	Unbounded  bool   // the cell was abandoned because the failure had been delivered more than fireBound times
-	Ms         int64
-	Stacks     string // goroutine dump when hung
+	ID           string
+	ErrNil       bool
+	ErrHasMsg    bool
+	ErrText      string
+	RowsOK       bool // only meaningful if ErrNil
+	RowsDiff     string
+	Reached      int64
+	Fired        int64
+	Locs         map[string]int
+	HealthyOK    bool
+	HealthyErr   string
+	Hang         string // "" | "run" | "repeat-run" | "later-run"
+	GateWaits    int32  // forced interleaving: waits at a gate in the first run ...
+	GateTimeouts int32  // ... and how many of them timed out (the interleaving was then not forced)
+	Repeats      int    // how often the failing Func was run again before the healthy one
+	RepeatBad    string // a repeat of the failing Func that broke the oracle of the first run
+	Unbounded    bool   // the cell was abandoned because the failure had been delivered more than fireBound times
+	Ms           int64
+	Stacks       string // goroutine dump when hung
 }
 
 type line struct {
@@ -237,6 +239,7 @@ func runCell(c *Cell, emit func(line)) {
 	snapshot := func() {
 		st := &table[idx]
 		o.Reached, o.Fired = atomic.LoadInt64(&st.reached), atomic.LoadInt64(&st.fired)
+		o.GateWaits, o.GateTimeouts = atomic.LoadInt32(&st.gateWaits), atomic.LoadInt32(&st.gateTimeouts)
 		st.mu.Lock()
 		o.Locs = map[string]int{}
 		for k, v := range st.locs {
@@ -314,6 +317,7 @@ func runCell(c *Cell, emit func(line)) {
 		if s.Pers != "always" {
 			atomic.StoreInt64(&table[idx].fired, 0) // transient: fails once / twice in every run
 		}
+		table[idx].resetGate()
 		r, ok = await(&s, true)
 		if !ok {
 			o.Hang = "repeat-run"
